@@ -407,7 +407,7 @@ extern "C" int __wrap_nanosleep(const struct timespec*ts,struct timespec*rem){ I
 // ================================================================ descriptors
 namespace simk {
 struct Obj {
-	enum Kind { UNBOUND, LISTENER, STREAM, EPOLL, FILE_, URANDOM } kind = UNBOUND;
+	enum Kind { UNBOUND, LISTENER, STREAM, EPOLL, FILE_, URANDOM } kind = UNBOUND; bool pipe_end = false;
 	bool nonblock=false; int family=0; int socktype=SOCK_STREAM; std::string addr;
 	std::shared_ptr<bool> reset;
 	std::shared_ptr<Chan> rx,tx;
@@ -554,7 +554,8 @@ static ssize_t do_write(int fd,Obj&o,const struct iovec*iov,int n){
 	if(*o.reset){ errno=ECONNRESET; S.resets++; tracef("write %d ECONNRESET",fd); return -1; }
 	if(o.tx->rd_closed||o.tx->wr_closed){ errno=EPIPE; S.epipe++; tracef("write %d EPIPE",fd); return -1; }
 	size_t total=0; for(int i=0;i<n;i++) total+=iov[i].iov_len; if(total==0) return 0;
-	if(o.nonblock && P.p_spurious && frng.chance(P.p_spurious)){ S.spurious++; trace_mix(0xE4); errno=EAGAIN; tracef("write %d spurious EAGAIN",fd); return -1; }
+	// never on a pipe: a non-blocking pipe write fails with EAGAIN only when the pipe is full (a lost wake-up byte of the loop's self-pipe would be a fault no kernel produces)
+	if(o.nonblock && !o.pipe_end && P.p_spurious && frng.chance(P.p_spurious)){ S.spurious++; trace_mix(0xE4); errno=EAGAIN; tracef("write %d spurious EAGAIN",fd); return -1; }
 	while(o.tx->room()==0){
 		if(o.nonblock){ errno=EAGAIN; S.eagain_w++; tracef("write %d EAGAIN",fd); return -1; }
 		Obj*p=&o; int64_t dl=o.sndtimeo_us>0? now_us()+o.sndtimeo_us : -1;
@@ -575,7 +576,7 @@ extern "C" ssize_t __wrap_read(int fd,void*b,size_t n){ IGN; SIMFD(o,fd); if(!o)
 extern "C" ssize_t __wrap_write(int fd,const void*b,size_t n){ IGN; SIMFD(o,fd); if(!o) return __real_write(fd,b,n); yield(); struct iovec v={(void*)b,n}; return do_write(fd,*o,&v,1); }
 extern "C" int __wrap_pipe(int p[2]){ IGN; if(!in_sim()) return __real_pipe(p);
 	auto r=std::make_shared<Obj>(),w=std::make_shared<Obj>(); make_pair(w,r,65536,0); r->family=AF_UNIX; w->family=AF_UNIX;
-	r->tx->rd_closed=true; p[0]=newfd(r); p[1]=newfd(w); tracef("pipe %d %d",p[0],p[1]); return 0; }
+	r->tx->rd_closed=true; r->pipe_end=w->pipe_end=true; p[0]=newfd(r); p[1]=newfd(w); tracef("pipe %d %d",p[0],p[1]); return 0; }
 extern "C" int __wrap_socketpair(int d,int t,int pr,int sv[2]){ IGN; if(!in_sim()) return __real_socketpair(d,t,pr,sv);
 	auto a=std::make_shared<Obj>(),b=std::make_shared<Obj>(); make_pair(a,b,P.default_chan_cap,P.default_chan_cap); a->family=b->family=AF_UNIX;
 	sv[0]=newfd(a); sv[1]=newfd(b); tracef("socketpair %d %d",sv[0],sv[1]); return 0; }
